@@ -857,6 +857,9 @@ class _ProbeContextInjectorNode(_ProbeNode):
 
         data = payload.data
         context = payload.context
+        # Expose the active context to the probe (mirrors _DataNode) so that sweep
+        # probes can publish their materialised ``{var}_values`` sequences.
+        setattr(self.processor, "observer_context", context)
         parameters = self._get_processor_parameters(context)
         probe_result = self.processor.process(data, **parameters)
         if isinstance(context, ContextCollectionType):
